@@ -181,7 +181,7 @@ class ValidationContext:
         for attr in iter_class_slots(self):
             setattr(context, attr, getattr(self, attr))
 
-        context.errors = self.errors.copy()
+        context.errors = self.errors  # shared collector: errors found with the copy are kept
         context.id_map = self.id_map.copy()
         context.identities = self.identities.copy()
         context.inherited = self.inherited.copy()
